@@ -68,6 +68,7 @@ Definition caller_ok (pending : option (Z * Z)) (x : caller) : Prop :=
   | Failed => False
   | Cancelled => True
   | LostFail => True
+  | SendFail => True
   end.
 
 Definition pipeline_ok (s : hstate) : Prop :=
@@ -104,7 +105,7 @@ Lemma step_inv s l : Inv s -> h_lost s = false -> l <> Lose ->
 Proof.
   intros I Hlost Hnl Hl Hcan. destruct (step_opt s l) as [[s' o]|] eqn:E; [|rewrite (step_none _ _ E); exact I].
   rewrite (step_some _ _ _ _ E). destruct I as [Ierr Ind Icall Ipipe].
-  destruct l as [c op|c|cc n| |cc op n| |c|c|]; cbn [label_ok] in Hl; try discriminate; [| | | | | |congruence].
+  destruct l as [c op|c|cc n| |cc op n| |c|c| |c]; cbn [label_ok] in Hl; try discriminate; [| | | | | |congruence|].
   - (* Call *)
     cbn [step_opt] in E. destruct (known c (h_callers s)) eqn:K; [discriminate|].
     inversion E; subst s' o; clear E. apply Z.ltb_lt in Hl.
@@ -235,13 +236,28 @@ Proof.
         -- rewrite P. exact (Icall y Hy).
       * unfold pipeline_ok. cbn [h_err h_callers h_pending h_sem h_resp h_to h_from with_callers]. rewrite P.
         exact Ipipe.
+  - (* AcquireFail: the send raises inside the try, the finally undoes the acquisition *)
+    cbn [step_opt] in E. destruct (Z.leb (h_sem s) 0) eqn:Sem; [discriminate|].
+    destruct (find_waiting c (h_callers s)) as [x|] eqn:F; [|discriminate].
+    rewrite Hlost in E.
+    unfold pipeline_ok in Ipipe. destruct (h_pending s) as [[c' op']|] eqn:P.
+    { destruct Ipipe as [Hs _]. rewrite Hs in Sem. discriminate. }
+    destruct Ipipe as [Hsem [Hr [Ht Hf]]]. rewrite Hr in E. inversion E; subst s' o; clear E.
+    constructor; cbn [h_err h_callers h_pending h_sem h_resp h_to h_from with_callers].
+    + exact Ierr.
+    + rewrite map_id_set_phase. exact Ind.
+    + intros y' Hy'. apply in_set_phase in Hy'. destruct Hy' as [y [Hy ->]]. rewrite P.
+      destruct (has_id c y) eqn:Hid'.
+      * pose proof (Icall y Hy) as [Hop _]. split; cbn; auto.
+      * exact (Icall y Hy).
+    + unfold pipeline_ok. cbn [h_err h_callers h_pending h_sem h_resp h_to h_from with_callers]. rewrite P. auto.
 Qed.
 
 (* ------------------------------------------------------------------ after the transport is lost *)
 Lemma step_lost s l : l <> Lose -> h_lost (step s l) = h_lost s.
 Proof.
   intros N. unfold step. destruct (step_opt s l) as [[s' o]|] eqn:E; [|reflexivity].
-  destruct l as [c op|c|cc n| |cc op n| |c|c|]; cbn [step_opt] in E; try congruence.
+  destruct l as [c op|c|cc n| |cc op n| |c|c| |c]; cbn [step_opt] in E; try congruence.
   - destruct (known c (h_callers s)); inversion E; reflexivity.
   - destruct (Z.leb (h_sem s) 0); [discriminate|]. destruct (find_waiting c (h_callers s)); [|discriminate].
     destruct (h_lost s) eqn:L; [inversion E; subst; cbn; congruence|].
@@ -261,6 +277,9 @@ Proof.
     + destruct (c' =? c); [inversion E; reflexivity|].
       destruct (find_waiting c (h_callers s)); inversion E; reflexivity.
     + destruct (find_waiting c (h_callers s)); inversion E; reflexivity.
+  - destruct (Z.leb (h_sem s) 0); [discriminate|]. destruct (find_waiting c (h_callers s)); [|discriminate].
+    destruct (h_lost s) eqn:L; [inversion E; subst; cbn; congruence|].
+    destruct (h_pending s), (h_resp s); inversion E; subst; cbn; congruence.
 Qed.
 
 (* the invariant of the states after a loss: nothing is sent any more; whoever holds the
@@ -310,7 +329,7 @@ Proof.
   intros I Hl Hcan Hlo. destruct (step_opt s l) as [[s' o]|] eqn:E; [|rewrite (step_none _ _ E); exact I].
   rewrite (step_some _ _ _ _ E). destruct I as [Ilost Ierr Ind Icall Ipend Iout].
   unfold lost_ok in Hlo. rewrite Ilost in Hlo.
-  destruct l as [c op|c|cc n| |cc op n| |c|c|]; cbn [label_ok] in Hl; try discriminate; cbn [step_opt] in E.
+  destruct l as [c op|c|cc n| |cc op n| |c|c| |c]; cbn [label_ok] in Hl; try discriminate; cbn [step_opt] in E.
   - (* Call *)
     destruct (known c (h_callers s)) eqn:K; [discriminate|]. inversion E; subst s' o; clear E.
     apply Z.ltb_lt in Hl. constructor; cbn; auto.
@@ -408,6 +427,19 @@ Proof.
     unfold lost_pending_ok in *. cbn [h_pending h_sem h_resp h_callers].
     destruct (h_pending s) as [[c op]|]; [|destruct Ipend as [Hs Hr]; rewrite Hr; auto].
     destruct Ipend as [Hs [Hex [o' [n' [Hr Hc]]]]]. rewrite Hr. split; [exact Hs|]. split; [exact Hex|]. eauto.
+  - (* AcquireFail after a loss: as Acquire *)
+    destruct (Z.leb (h_sem s) 0) eqn:Sem; [discriminate|].
+    destruct (find_waiting c (h_callers s)) as [x|] eqn:F; [|discriminate].
+    rewrite Ilost in E. inversion E; subst s' o; clear E.
+    unfold lost_pending_ok in Ipend. destruct (h_pending s) as [[c' op']|] eqn:P.
+    { destruct Ipend as [Hs _]. rewrite Hs in Sem. discriminate. }
+    constructor; cbn [h_lost h_err h_callers h_pending h_sem h_resp h_to h_from with_callers]; auto.
+    + rewrite map_id_set_phase. exact Ind.
+    + intros y' Hy'. apply in_set_phase in Hy'. destruct Hy' as [y [Hy ->]]. rewrite P.
+      destruct (has_id c y) eqn:Hc.
+      * pose proof (Icall y Hy) as [Hop _]. split; cbn; auto.
+      * exact (Icall y Hy).
+    + unfold lost_pending_ok. cbn [h_pending h_sem h_resp with_callers]. rewrite P. exact Ipend.
 Qed.
 
 (* before or after a loss *)
@@ -484,6 +516,7 @@ Proof.
     + contradiction.
     + reflexivity.
     + reflexivity.
+    + reflexivity.
 Qed.
 
 (* ------------------------------------------------------------------ progress and termination *)
@@ -555,7 +588,7 @@ Lemma measure_decreases s l s' o :
   internal l = true -> step_opt s l = Some (s', o) -> (measure s' < measure s)%nat.
 Proof.
   intros Hi E. unfold measure.
-  destruct l as [c op|c|cc n| |cc op n| |c|c|]; try discriminate; cbn [step_opt] in E.
+  destruct l as [c op|c|cc n| |cc op n| |c|c| |c]; try discriminate; cbn [step_opt] in E.
   - (* Acquire *)
     destruct (Z.leb (h_sem s) 0); [discriminate|].
     destruct (find_waiting c (h_callers s)) as [x|] eqn:F; [|discriminate].
@@ -734,7 +767,7 @@ Lemma lost_nothing_sent s l s' o : h_lost s = true -> lost_ok s l = true -> step
   (forall c op, ~ In (Sent c op) o) /\ (length (h_to s') <= length (h_to s))%nat.
 Proof.
   intros L Hlo E. unfold lost_ok in Hlo. rewrite L in Hlo.
-  destruct l as [c op|c|cc n| |cc op n| |c|c|]; try discriminate.
+  destruct l as [c op|c|cc n| |cc op n| |c|c| |c]; try discriminate.
   - cbn [step_opt] in E. destruct (known c (h_callers s)); inversion E; subst; cbn. split; [tauto | lia].
   - destruct (lost_acquire_fails s c s' o L E) as [-> [-> _]]. split; [|lia]. intros ? ? [H|[]]. discriminate.
   - cbn [step_opt] in E. destruct (h_pending s) as [[c' op']|]; [|discriminate].
@@ -747,6 +780,9 @@ Proof.
       destruct (find_waiting c (h_callers s)); inversion E; subst; cbn. split; [|lia]. intros ? ? [H|[]]; discriminate.
     + destruct (find_waiting c (h_callers s)); inversion E; subst; cbn. split; [|lia]. intros ? ? [H|[]]; discriminate.
   - cbn [step_opt] in E. inversion E; subst; cbn. split; [tauto | lia].
+  - cbn [step_opt] in E. destruct (Z.leb (h_sem s) 0); [discriminate|].
+    destruct (find_waiting c (h_callers s)); [|discriminate]. rewrite L in E. inversion E; subst; cbn.
+    split; [|lia]. intros ? ? [H|[]]. discriminate.
 Qed.
 
 (* after a loss the host's own steps (Acquire, Resume) are enabled until every caller has its
@@ -927,3 +963,24 @@ Lemma transport_lost_example :
   map phase_code (h_callers (run h_init ls)) = [(1, 5, 0); (2, 5, 0); (3, 5, 0); (4, 5, 0)] /\
   all_answered (run h_init ls) = true /\ h_sem (run h_init ls) = 1 /\ h_to (run h_init ls) = [4105].
 Proof. vm_compute. repeat split. Qed.
+
+
+(* a send that raises: the caller gets its exception, the permit is back, nothing is pending or on
+   the wire, and the callers queued behind it are served *)
+Lemma send_failure_example :
+  let ls := [Call 1 8204; Call 2 4105; Call 3 3092; AcquireFail 1; Acquire 2; CtrlReply true 1; Deliver; Resume 2;
+             AcquireFail 3] in
+  wf_run h_init ls = true /\
+  map phase_code (h_callers (run h_init ls)) = [(1, 6, 0); (2, 2, 4105); (3, 6, 0)] /\
+  all_answered (run h_init ls) = true /\ h_sem (run h_init ls) = 1 /\ h_pending (run h_init ls) = None /\
+  outstanding (run h_init ls) = 0.
+Proof. vm_compute. repeat split. Qed.
+
+(* frame: a failed send leaves the semaphore, the pending command and both FIFOs as they were *)
+Lemma send_failure_frame s c s' o : h_lost s = false -> h_pending s = None -> h_resp s = None ->
+  step_opt s (AcquireFail c) = Some (s', o) ->
+  o = [SendFailed c] /\ h_sem s' = h_sem s /\ h_pending s' = None /\ h_to s' = h_to s /\ h_from s' = h_from s.
+Proof.
+  intros L P R E. cbn [step_opt] in E. destruct (Z.leb (h_sem s) 0); [discriminate|].
+  destruct (find_waiting c (h_callers s)); [|discriminate]. rewrite L, P, R in E. inversion E; subst. cbn. auto.
+Qed.
